@@ -157,6 +157,117 @@ Proof.
     rewrite E1. apply (IH p1 Hc1 Hu2 Hk2 Hg2).
 Qed.
 
+(* ---------- pop and pop_if_empty on the canonical path ---------- *)
+Definition pth_pop (p : pth) : pth :=
+  match p with
+  | None => None
+  | Some ([], _) => Some ([], [])
+  | Some (segs, _) => Some (removelast segs, List.last segs [])
+  end.
+Definition pth_pop_if_empty (p : pth) : pth :=
+  match p with
+  | Some (s :: sg, []) => Some (removelast (s :: sg), List.last (s :: sg) [])
+  | _ => p
+  end.
+
+Lemma good_no_slash s : good_seg s = true -> no_byte 47 s = true.
+Proof. intros H. apply good_seg_parts in H. tauto. Qed.
+
+Lemma nfirstn_succ_cons c A rest : nfirstn (1 + nlen A) (c :: A ++ rest) = c :: A.
+Proof. replace (1 + nlen A) with (nlen (c :: A)) by (rewrite nlen_cons; reflexivity). apply (nfirstn_app_len (c :: A) rest). Qed.
+
+Lemma pop_text_pth p : pth_ok p -> pop_text (pth_text p) = pth_text (pth_pop p).
+Proof.
+  destruct p as [[segs last]|]; [|reflexivity]. intros [H1 H2]. pose proof (good_no_slash last H2) as Hl.
+  destruct segs as [|s0 sg0].
+  - cbn [pth_text pth_pop]. unfold C02_Path.path_text, pop_text. cbn [segs_text map concat app].
+    destruct last as [|c r]; [reflexivity|].
+    replace (nlen (47 :: c :: r) <=? 1) with false by (rewrite !nlen_cons; symmetry; apply N.leb_gt; lia).
+    change (nskipn 1 (47 :: c :: r)) with (c :: r). unfold rfind. rewrite rfind_aux_none by exact Hl. reflexivity.
+  - cbn [pth_pop]. set (sg := removelast (s0 :: sg0)). set (s := List.last (s0 :: sg0) []).
+    assert (s0 :: sg0 = sg ++ [s]) as Es by (apply app_removelast_last; discriminate).
+    rewrite Es. cbn [pth_text]. unfold C02_Path.path_text, pop_text. rewrite segs_text_snoc.
+    replace (nlen (47 :: (segs_text sg ++ s ++ [47]) ++ last) <=? 1) with false
+      by (rewrite nlen_cons, !nlen_app; change (nlen [47]) with 1; symmetry; apply N.leb_gt; lia).
+    change (nskipn 1 (47 :: (segs_text sg ++ s ++ [47]) ++ last)) with ((segs_text sg ++ s ++ [47]) ++ last).
+    replace ((segs_text sg ++ s ++ [47]) ++ last) with ((segs_text sg ++ s) ++ 47 :: last)
+      by (rewrite <- !app_assoc; reflexivity).
+    rewrite (rfind_app_last 47 (segs_text sg ++ s) last Hl). rewrite nfirstn_succ_cons. reflexivity.
+Qed.
+
+Lemma pop_if_empty_text_pth p : pth_ok p -> pop_if_empty_text (pth_text p) = pth_text (pth_pop_if_empty p).
+Proof.
+  destruct p as [[segs last]|]; [|reflexivity]. intros [H1 H2]. pose proof (good_no_slash last H2) as Hl.
+  unfold pop_if_empty_text. destruct last as [|c r].
+  - destruct segs as [|s0 sg0]; [reflexivity|].
+    cbn [pth_pop_if_empty]. set (sg := removelast (s0 :: sg0)). set (s := List.last (s0 :: sg0) []).
+    assert (s0 :: sg0 = sg ++ [s]) as Es by (apply app_removelast_last; discriminate).
+    rewrite Es. cbn [pth_text]. unfold C02_Path.path_text. rewrite segs_text_snoc. rewrite app_nil_r.
+    replace (nlen (47 :: segs_text sg ++ s ++ [47]) <=? 1) with false
+      by (rewrite nlen_cons, !nlen_app; change (nlen [47]) with 1; symmetry; apply N.leb_gt; lia).
+    change (nskipn 1 (47 :: segs_text sg ++ s ++ [47])) with (segs_text sg ++ s ++ [47]).
+    rewrite (app_assoc (segs_text sg) s [47]). rewrite ends_with_byte_snoc.
+    replace (nlen (47 :: (segs_text sg ++ s) ++ [47]) - 1) with (nlen (47 :: segs_text sg ++ s))
+      by (rewrite !nlen_cons, !nlen_app; change (nlen [47]) with 1; lia).
+    apply (nfirstn_app_len (47 :: segs_text sg ++ s) [47]).
+  - cbn [pth_pop_if_empty]. destruct segs; cbn [pth_text]; unfold C02_Path.path_text.
+    + destruct (nlen (47 :: segs_text [] ++ c :: r) <=? 1); [reflexivity|].
+      change (nskipn 1 (47 :: segs_text [] ++ c :: r)) with (segs_text [] ++ c :: r).
+      rewrite ends_with_not; [reflexivity | discriminate |].
+      unfold no_byte in Hl. rewrite forallb_forall in Hl. apply Forall_forall. intros x Hx. specialize (Hl x Hx). lia.
+    + destruct (nlen (47 :: segs_text (l :: segs) ++ c :: r) <=? 1); [reflexivity|].
+      change (nskipn 1 (47 :: segs_text (l :: segs) ++ c :: r)) with (segs_text (l :: segs) ++ c :: r).
+      rewrite ends_with_not; [reflexivity | discriminate |].
+      unfold no_byte in Hl. rewrite forallb_forall in Hl. apply Forall_forall. intros x Hx. specialize (Hl x Hx). lia.
+Qed.
+
+Lemma forallb_removelast {A} (f : A -> bool) (l : list A) d : l <> [] -> forallb f l = true ->
+  forallb f (removelast l) = true /\ f (List.last l d) = true.
+Proof.
+  intros Hne H. rewrite (app_removelast_last d Hne) in H. rewrite forallb_snoc in H. apply andb_true_iff in H. exact H.
+Qed.
+
+Lemma pth_pop_cls st p : auth_cls st p -> auth_cls st (pth_pop p).
+Proof.
+  intros [[-> Hp]|[-> Hp]].
+  - left. split; [reflexivity|]. destruct p as [[segs last]|]; [|exact I]. destruct Hp as [H1 H2].
+    destruct segs as [|s0 sg0]; cbn [pth_pop pth_ok]; [split; reflexivity|].
+    apply (forallb_removelast good_seg (s0 :: sg0) []); [discriminate | exact H1].
+  - right. split; [reflexivity|]. destruct p as [[segs last]|]; [|destruct Hp]. destruct Hp as [H1 H2].
+    destruct segs as [|s0 sg0]; cbn [pth_pop pth_ok_sp]; [split; reflexivity|].
+    apply (forallb_removelast good_seg_sp (s0 :: sg0) []); [discriminate | exact H1].
+Qed.
+
+Lemma pth_pop_if_empty_cls st p : auth_cls st p -> auth_cls st (pth_pop_if_empty p).
+Proof.
+  intros [[-> Hp]|[-> Hp]].
+  - left. split; [reflexivity|]. destruct p as [[segs last]|]; [|exact I]. destruct Hp as [H1 H2].
+    destruct segs as [|s0 sg0]; destruct last; cbn [pth_pop_if_empty pth_ok]; try (split; assumption).
+    apply (forallb_removelast good_seg (s0 :: sg0) []); [discriminate | exact H1].
+  - right. split; [reflexivity|]. destruct p as [[segs last]|]; [|destruct Hp]. destruct Hp as [H1 H2].
+    destruct segs as [|s0 sg0]; destruct last; cbn [pth_pop_if_empty pth_ok_sp]; try (split; assumption).
+    apply (forallb_removelast good_seg_sp (s0 :: sg0) []); [discriminate | exact H1].
+Qed.
+
+(* every editor operation outside F-C06-7 is an operation on the canonical path *)
+Lemma session_text_cls_all st ops : forall p, auth_cls st p -> Forall psm_op_usv ops -> Forall psm_op_plain ops ->
+  exists p', auth_cls st p' /\ session_text st (pth_text p) ops = pth_text p'.
+Proof.
+  induction ops as [|o rest IH]; intros p Hc Hu Hk; cbn [session_text fold_left].
+  - exists p. split; [exact Hc | reflexivity].
+  - pose proof (Forall_inv Hu) as Hu1. pose proof (Forall_inv_tail Hu) as Hu2.
+    pose proof (Forall_inv Hk) as Hk1. pose proof (Forall_inv_tail Hk) as Hk2.
+    assert (exists p1, auth_cls st p1 /\ op_text st (pth_text p) o = pth_text p1) as (p1 & Hc1 & E1).
+    { pose proof (C06_SpliceAuth.pth_cls_ok st p Hc) as Hok.
+      destruct o; cbn [op_text psm_op_usv psm_op_plain] in *.
+      - exists (pth_clear p). split; [apply pth_clear_cls; exact Hc | apply clear_text_pth].
+      - exists (pth_pop_if_empty p). split; [apply pth_pop_if_empty_cls; exact Hc | apply pop_if_empty_text_pth; exact Hok].
+      - exists (pth_pop p). split; [apply pth_pop_cls; exact Hc | apply pop_text_pth; exact Hok].
+      - apply (extend_text_cls st [s] p Hc); constructor; try assumption; constructor.
+      - apply (extend_text_cls st ss p Hc); assumption. }
+    rewrite E1. apply (IH p1 Hc1 Hu2 Hk2).
+Qed.
+
 Section PushCanon.
 Variable dbg : bool.
 Variable hp hpo : list N -> result host.
@@ -202,6 +313,37 @@ Proof.
   intros C Hau Hu Hk Hg E Hb.
   destruct (Canon_auth_cases hp hpo hd u C Hau) as (st & sch & ui & h & pt & p & q & f & -> & K & Hc).
   destruct (psm_grow_auth st sch ui h pt p q f ops u' K Hc Hu Hk Hg E) as (p' & Hc' & -> & _).
+  cbn [ser C02_Auth.auth_url] in Hb.
+  pose proof (auth_ok_path hp hpo hd st sch ui h pt p q f p' K (C06_SpliceAuth.pth_cls_ok st p' Hc') Hb) as K'.
+  destruct Hc' as [[-> Hp']|[-> Hp']]; [apply Canon_auth | apply Canon_special]; assumption.
+Qed.
+
+Theorem psm_auth st sch ui h pt p q f ops u' : auth_ok st sch ui h pt p q f -> auth_cls st p ->
+  Forall psm_op_usv ops -> Forall psm_op_plain ops ->
+  path_segments_session dbg (auth_url sch ui h pt p q f) ops = Some (u', SOk) ->
+  exists p', auth_cls st p' /\ u' = auth_url sch ui h pt p' q f
+             /\ pth_text p' = session_text st (pth_text p) ops.
+Proof.
+  intros K Hc Hu Hk E. pose proof (C06_SpliceAuth.auth_cls_nf st p Hc) as Hnf.
+  pose proof (proj1 (auth_url_wf hp hpo hd HRT _ _ _ _ _ _ _ _ K)) as W.
+  assert (st_of (auth_url sch ui h pt p q f) = st) as Est.
+  { unfold st_of. rewrite (auth_stype hd). exact (ak_st _ _ _ _ _ _ _ _ _ _ _ K). }
+  pose proof (path_segments_session_exact dbg _ ops u' W (auth_byte_slash hd sch ui h pt p q f)) as X.
+  rewrite Est in X. specialize (X Hnf Hu Hk E). rewrite auth_path_bytes in X.
+  destruct (session_text_cls_all st ops p Hc Hu Hk) as (p' & Hc' & E').
+  exists p'. split; [exact Hc'|]. split; [|symmetry; exact E'].
+  rewrite X, E'. rewrite !auth_url_qf. unfold C02_Auth.auth_pre. apply with_path_qf.
+Qed.
+
+(* a whole path_segments_mut session (any of the five operations, arguments outside F-C06-7) on a canonical record
+   with an authority returns a canonical record *)
+Theorem psm_Canon u ops u' : Canon hp hpo hd u -> has_authority_b u = true ->
+  Forall psm_op_usv ops -> Forall psm_op_plain ops ->
+  path_segments_session dbg u ops = Some (u', SOk) -> nlen (ser u') <= U32_MAX_P -> Canon hp hpo hd u'.
+Proof.
+  intros C Hau Hu Hk E Hb.
+  destruct (Canon_auth_cases hp hpo hd u C Hau) as (st & sch & ui & h & pt & p & q & f & -> & K & Hc).
+  destruct (psm_auth st sch ui h pt p q f ops u' K Hc Hu Hk E) as (p' & Hc' & -> & _).
   cbn [ser C02_Auth.auth_url] in Hb.
   pose proof (auth_ok_path hp hpo hd st sch ui h pt p q f p' K (C06_SpliceAuth.pth_cls_ok st p' Hc') Hb) as K'.
   destruct Hc' as [[-> Hp']|[-> Hp']]; [apply Canon_auth | apply Canon_special]; assumption.
